@@ -163,65 +163,25 @@ def check(ctx):
 
     # ------------------------------------------------------------------ R4
     ts = pl.func("CommandPipeline.tee_stdout")
-    loop = next((n for n in ast.walk(ts) if isinstance(n, ast.For) and "self.iterraw()" in unparse(n.iter)), None)
-    if loop is None:
-        raise AnchorMissing(f"{PL}:tee_stdout: loop over iterraw()")
-    var = unparse(loop.target)
-    bcfg = CFG(loop.body)
-    tdefs = df.all_defs(ts)
-    # roles: the raw list is what is joined into self._raw_output; constants are identified by value
-    RAWL = {unparse(c.args[0]) for n in walk_local(ts) if isinstance(n, ast.Assign) and unparse(n.targets[0]) == "self._raw_output" for c in [n.value] if isinstance(c, ast.Call) and last_attr(c) == "join" and c.args}
-    LINES = names_bound_to_text(ts, "self.lines", tdefs) | {"self.lines"}
-    byval = lambda b_: names_defined_by(ts, lambda v, b_=b_: isinstance(v, ast.Constant) and v.value == b_, tdefs)
-    NL, CR, CRNL = byval(b"\n"), byval(b"\r"), byval(b"\r\n")
-    ENC = names_defined_by(ts, lambda v: isinstance(v, ast.Call) and last_attr(v) == "get" and v.args and const_value(v.args[0]) == "XONSH_ENCODING", tdefs)
-    ERR = names_defined_by(ts, lambda v: isinstance(v, ast.Call) and last_attr(v) == "get" and v.args and const_value(v.args[0]) == "XONSH_ENCODING_ERRORS", tdefs)
-    # a role is a name bound to the value or the literal itself
-    NL, CR, CRNL = NL | {repr(b"\n")}, CR | {repr(b"\r")}, CRNL | {repr(b"\r\n")}
-    if not (RAWL and ENC and ERR):
-        raise AnalysisError(f"{PL}:tee_stdout: roles not found (raw={RAWL} enc={ENC} err={ERR})")
-    raw = [n for n in bcfg.nodes if n.kind == "stmt" and any(isinstance(c.func, ast.Attribute) and c.func.attr == "append" and unparse(c.func.value) in RAWL and c.args and unparse(c.args[0]) == var for c in calls_in(n.ast))]
-    reas = [n for n in bcfg.nodes if n.kind == "stmt" and isinstance(n.ast, ast.Assign) and unparse(n.ast.targets[0]) == var]
-    ok = len(raw) == 1 and all(bcfg.dominated(r, lambda m: m in raw) for r in reas)
-    ctx.ob("R4", f"{PL}:CommandPipeline.tee_stdout", "the raw line is appended to raw_out_lines before the line is reshaped", ok, key="tee|raw-after-shaping", where=loc(loop))
-    ok, _ = bcfg.must_pass(bcfg.entry, lambda m: m in raw, exits=("exit",)) if raw else (False, None)
-    ctx.ob("R4", f"{PL}:CommandPipeline.tee_stdout", "every line that is yielded was recorded raw (no path skips the append)", ok, key="tee|raw-skipped", where=loc(loop))
-    allowed = 0
-    for r in reas:
-        v = r.ast.value
-        txt = unparse(v)
-        ok = False
-        if isinstance(v, ast.BinOp) and isinstance(v.op, ast.Add) and isinstance(v.left, ast.Subscript) and unparse(v.left.value) == var and unparse(v.right) in NL:
-            up = v.left.slice.upper if isinstance(v.left.slice, ast.Slice) else None
-            cut = -const_value(up.operand) if isinstance(up, ast.UnaryOp) else None
-            facts = facts_text(facts_at(bcfg, r))
-            ok = (cut == -2 and any(f"{var}.endswith({c_})" in facts for c_ in CRNL)) or (cut == -1 and any(f"{var}.endswith({c_})" in facts for c_ in CR))
-        elif isinstance(v, ast.Call) and unparse(v.func) == f"{var}.decode" and not v.args and {k.arg: unparse(k.value) for k in v.keywords}.keys() == {"encoding", "errors"} and unparse(kwarg(v, "encoding")) in ENC and unparse(kwarg(v, "errors")) in ERR:
-            ok = True
-        elif txt == f"RE_HIDE_ESCAPE.sub('', {var})":
-            ok = True
-        allowed += ok
-        ctx.ob("R4", f"{PL}:CommandPipeline.tee_stdout", f"`{short(r.ast, 60)}` is one of the documented shapings (CRLF/CR->LF at line end, decode, escape stripping)", ok, key=f"tee|undocumented-shaping|{txt[:50]}", where=loc(r.ast))
-    app = [n for n in bcfg.nodes if n.kind == "stmt" and any(isinstance(c.func, ast.Attribute) and c.func.attr == "append" and unparse(c.func.value) in LINES for c in calls_in(n.ast))]
-    yl = [n for n in bcfg.nodes if n.kind == "stmt" and any(isinstance(x, ast.Yield) for x in ast.walk(n.ast))]
-    ok = len(app) == 1 and len(yl) == 1 and bcfg.dominated(yl[0], lambda m: m in app)
-    ctx.ob("R4", f"{PL}:CommandPipeline.tee_stdout", "each shaped line is appended to `lines` exactly once, before it is yielded", ok, key="tee|lines-append", where=loc(loop))
+    _tee_shaping(ctx, ts)
     gf = pl.func("CommandPipeline.get_formatted_lines")
     gcfg = CFG(gf)
     n_strip = 0
+    lp_ = param_name(gf, 0)
     for n in gcfg.nodes:
         if n.kind == "stmt" and isinstance(n.ast, ast.Return) and n.ast.value is not None:
             v = n.ast.value
-            facts = facts_text(facts_at(gcfg, n))
-            nf_ = nfacts(gcfg, n)
+            # the format is selected by an if/elif chain or by the arms of a `match` on it: same facts either way
+            known = facts_at(gcfg, n) + _case_facts(gcfg, n)
+            facts = facts_text(known)
+            nf_ = _norm_facts(known)
             if any("stream_lines" in t and pol for t, pol in nf_):
                 if "rstrip" in unparse(v):
                     n_strip += 1
-                    lp_ = param_name(gf, 0)
                     ok = (f"len({lp_}) == 1", True) in nf_ and unparse(v) == f"{lp_}[0].rstrip('\\n')"
                     ctx.ob("R4", f"{PL}:CommandPipeline.get_formatted_lines", "the trailing newline is stripped only when there is exactly one line, and only newlines are stripped", ok, key="format|strip-condition", where=loc(n.ast), detail="; ".join(facts))
                 else:
-                    ok = unparse(v) == "''.join(lines)"
+                    ok = unparse(v) == f"''.join({lp_})"
                     ctx.ob("R4", f"{PL}:CommandPipeline.get_formatted_lines", "multi-line output is the plain concatenation of the lines", ok, key="format|join", where=loc(n.ast))
     if n_strip != 1:
         raise AnalysisError(f"{PL}:get_formatted_lines: expected one stripping return for stream_lines, found {n_strip}")
@@ -304,6 +264,190 @@ def check(ctx):
     _reaper_records(ctx)
     _queue_unbounded(ctx)
     _strip_patterns_bounded(ctx)
+
+
+def _case_facts(cfg, node):
+    """facts_at for the arms of a `match` statement (cfg.guards knows only if/while): for every `case` whose true /
+    false edge dominates ``node`` the atoms that edge implies, in the spelling of the equivalent if/elif chain.  A
+    literal value pattern compares with `==` (None/True/False with `is`), an or-pattern is the disjunction, a capture
+    or wildcard always matches, `case P if g` is `P and g`.  Any other pattern (sequence, mapping, class) gives no
+    fact at all on either edge - fewer facts, never a wrong one.  The subject has to be a plain name / attribute
+    chain (it is evaluated once; only then does the comparison written out mean the same thing)."""
+    from ..engine.dtable import clone
+
+    full = cfg.reach([cfg.entry])
+    if node not in full:
+        return []
+
+    def atom(subj, p):
+        """(expr, exact) - expr is None if the pattern says nothing that can be written as a comparison"""
+        if isinstance(p, ast.MatchValue) and isinstance(p.value, (ast.Constant, ast.Attribute)):
+            return ast.Compare(left=clone(subj), ops=[ast.Eq()], comparators=[clone(p.value)])
+        if isinstance(p, ast.MatchSingleton):
+            return ast.Compare(left=clone(subj), ops=[ast.Is()], comparators=[ast.Constant(value=p.value)])
+        if isinstance(p, ast.MatchAs):
+            return ast.Constant(value=True) if p.pattern is None else atom(subj, p.pattern)
+        if isinstance(p, ast.MatchOr):
+            alts = [atom(subj, q) for q in p.patterns]
+            if any(a is None for a in alts):
+                return None
+            if any(isinstance(a, ast.Constant) for a in alts):
+                return ast.Constant(value=True)
+            return ast.BoolOp(op=ast.Or(), values=alts)
+        return None
+
+    out = []
+    for c in cfg.nodes:
+        if c.kind != "case" or c is node:
+            continue
+        m = next((x.ast for x in cfg.nodes if x.kind == "match" and any(k is c.ast for k in x.ast.cases)), None)
+        if m is None or dotted(m.subject) is None:
+            continue
+        pat, guard = atom(m.subject, c.ast.pattern), c.ast.guard
+        always = isinstance(pat, ast.Constant)
+        for label, pol in (("true", True), ("false", False)):
+            if not any(l == label for _, l in c.succ):
+                continue
+            if node in cfg.reach([cfg.entry], skip_edge=lambda a, b, l, c=c, label=label: a is c and l == label):
+                continue
+            if pol:
+                tests = [t for t in (None if always else pat, guard) if t is not None]
+            elif guard is None:
+                tests = [] if (pat is None or always) else [pat]
+            else:
+                tests = [guard] if always else []  # `P if g` failed: P or g, not known which
+            for t in tests:
+                if getattr(t, "lineno", None) is None:  # written out here: located at the pattern it stands for
+                    t = ast.fix_missing_locations(ast.copy_location(t, c.ast.pattern))
+                out += implied_facts(t, pol)
+    return out
+
+
+def _norm_facts(facts):
+    from ..engine.dtable import normalise
+
+    out = set()
+    for e, pol in facts:
+        e2, p2 = normalise(e, pol)
+        out.add((unparse(e2), p2))
+    return out
+
+
+def _tee_shaping(ctx, ts):
+    """R4 on tee_stdout.  Judged on the helper-transparent view, where the assignments a shaping helper makes to the
+    line appear in place.  The *line* is a role: the loop variable over iterraw() and every local of the loop body that
+    is bound from a line by a plain copy (a helper's parameter) or by one of the documented shapings.  Every other
+    binding of such a local is an undocumented shaping; what is stored and yielded has to be such a local."""
+    from ..engine.inline import _can_fall_through, is_inline_block
+
+    st = f"{PL}:CommandPipeline.tee_stdout"
+    fn = flat(ctx, ts, depth=2, skip=("iterraw",))
+    loop = next((n for n in walk_local(fn) if isinstance(n, ast.For) and "self.iterraw()" in unparse(n.iter)), None)
+    if loop is None:
+        raise AnchorMissing(f"{PL}:tee_stdout: loop over iterraw()")
+    if not isinstance(loop.target, ast.Name):
+        raise AnalysisError(f"{PL}:tee_stdout: the loop over iterraw() does not bind one name")
+    var = loop.target.id
+    bcfg = CFG(loop.body)
+    tdefs = df.all_defs(fn)
+    closure = lambda names: {c_ for n_ in names for c_ in copies_of(tdefs, n_)}
+    # roles: the raw list is what is joined into self._raw_output; constants are identified by value
+    RAWL = {unparse(c.args[0]) for n in walk_local(fn) if isinstance(n, ast.Assign) and unparse(n.targets[0]) == "self._raw_output" for c in [n.value] if isinstance(c, ast.Call) and last_attr(c) == "join" and c.args}
+    LINES = closure(names_bound_to_text(fn, "self.lines", tdefs)) | {"self.lines"}
+    byval = lambda b_: closure(names_defined_by(fn, lambda v, b_=b_: isinstance(v, ast.Constant) and v.value == b_, tdefs))
+    NL, CR, CRNL = byval(b"\n"), byval(b"\r"), byval(b"\r\n")
+    ENC = closure(names_defined_by(fn, lambda v: isinstance(v, ast.Call) and last_attr(v) == "get" and v.args and const_value(v.args[0]) == "XONSH_ENCODING", tdefs))
+    ERR = closure(names_defined_by(fn, lambda v: isinstance(v, ast.Call) and last_attr(v) == "get" and v.args and const_value(v.args[0]) == "XONSH_ENCODING_ERRORS", tdefs))
+    # a role is a name bound to the value or the literal itself
+    NL, CR, CRNL = NL | {repr(b"\n")}, CR | {repr(b"\r")}, CRNL | {repr(b"\r\n")}
+    if not (RAWL and ENC and ERR):
+        raise AnalysisError(f"{PL}:tee_stdout: roles not found (raw={RAWL} enc={ENC} err={ERR})")
+
+    LINE = {var}
+
+    def shaping(v):
+        """[(kind, source name, cut)] if ``v`` is a line (a local in that role) under documented shapings only - the
+        empty list for the plain copy - else None.  The conditions under which a cut is documented are judged at the
+        statement (they are branch facts)."""
+        if isinstance(v, ast.Name):
+            return [] if v.id in LINE else None
+        if isinstance(v, ast.BinOp) and isinstance(v.op, ast.Add) and isinstance(v.left, ast.Subscript) and isinstance(v.left.value, ast.Name) and v.left.value.id in LINE and unparse(v.right) in NL:
+            sl = v.left.slice
+            if isinstance(sl, ast.Slice) and sl.lower is None and sl.step is None and isinstance(sl.upper, ast.UnaryOp) and isinstance(sl.upper.op, ast.USub) and isinstance(const_value(sl.upper.operand), int):
+                return [("cut", v.left.value.id, const_value(sl.upper.operand))]
+            return None
+        if isinstance(v, ast.Call) and isinstance(v.func, ast.Attribute) and v.func.attr == "decode" and not v.args and {k.arg for k in v.keywords} == {"encoding", "errors"} and len(v.keywords) == 2 and unparse(kwarg(v, "encoding")) in ENC and unparse(kwarg(v, "errors")) in ERR:
+            inner = shaping(v.func.value)
+            return None if inner is None else inner + [("decode", None, None)]
+        if isinstance(v, ast.Call) and unparse(v.func) == "RE_HIDE_ESCAPE.sub" and len(v.args) == 2 and not v.keywords and const_value(v.args[0], None) == "":
+            inner = shaping(v.args[1])
+            return None if inner is None else inner + [("strip", None, None)]
+        return None
+
+    plain = lambda s: (s.targets[0] if isinstance(s, ast.Assign) and len(s.targets) == 1 else s.target if isinstance(s, ast.AnnAssign) and s.value is not None else None)
+    body_stmts = [n for s in loop.body for n in walk_local(s) if isinstance(n, ast.stmt)]
+    grew = True
+    while grew:
+        grew = False
+        for s in body_stmts:
+            t = plain(s)
+            if isinstance(t, ast.Name) and t.id not in LINE and shaping(s.value) is not None:
+                LINE.add(t.id)
+                grew = True
+
+    def dead_return_slot(s):
+        """`__xv_retK = None` in front of the block a helper with several returns was expanded into, and no path falls
+        out of that block's end: the None is never read (a helper that *can* fall off its end does return None)"""
+        if not (isinstance(s, ast.Assign) and isinstance(s.targets[0], ast.Name) and s.targets[0].id.startswith("__xv_ret") and const_value(s.value, 0) is None):
+            return False
+        for field in ("body", "orelse", "finalbody"):
+            sibs = getattr(parent(s), field, None)
+            if isinstance(sibs, list) and any(x is s for x in sibs):
+                i = next(i for i, x in enumerate(sibs) if x is s)
+                return i + 1 < len(sibs) and is_inline_block(sibs[i + 1]) and not _can_fall_through(sibs[i + 1].body)
+        return False
+
+    # every binding of a local in the line role, inside the loop
+    shapes = []  # (statement, steps or None)
+    for name in sorted(LINE):
+        for d in tdefs.get(name, []):
+            if d.stmt is loop and name == var:
+                continue
+            if not lexically_inside(d.stmt, loop):
+                if name == var:
+                    continue  # rebound by the loop on every round
+                raise AnalysisError(f"{PL}:tee_stdout: `{name}` holds the line inside the loop and something else outside it")
+            s = d.stmt
+            t = plain(s) if d.kind == "assign" else None
+            if dead_return_slot(s):
+                continue
+            steps = shaping(s.value) if isinstance(t, ast.Name) else None
+            if steps == []:
+                continue  # plain copy between two locals in the role
+            shapes.append((s, steps))
+    raw = [n for n in bcfg.nodes if n.kind == "stmt" and any(isinstance(c.func, ast.Attribute) and c.func.attr == "append" and unparse(c.func.value) in RAWL and c.args and unparse(c.args[0]) in LINE for c in calls_in(n.ast))]
+    reas = [n for s, _ in shapes for n in node_in(bcfg, s if isinstance(s, ast.stmt) else stmt_of(s), "a binding of the line")]
+    ok = len(raw) == 1 and all(bcfg.dominated(r, lambda m: m in raw) for r in reas)
+    ctx.ob("R4", st, "the raw line is appended to raw_out_lines before the line is reshaped", ok, key="tee|raw-after-shaping", where=loc(loop))
+    ok, _ = bcfg.must_pass(bcfg.entry, lambda m: m in raw, exits=("exit",)) if raw else (False, None)
+    ctx.ob("R4", st, "every line that is yielded was recorded raw (no path skips the append)", ok, key="tee|raw-skipped", where=loc(loop))
+    for s, steps in shapes:
+        txt = unparse(s.value) if getattr(s, "value", None) is not None else unparse(s)
+        ok = steps is not None
+        for kind, src, cut in steps or []:
+            if kind == "cut":
+                facts = set.intersection(*[nfacts(bcfg, nd) for nd in node_in(bcfg, s, "a binding of the line")])
+                ok = ok and ((cut == 2 and any((f"{src}.endswith({c_})", True) in facts for c_ in CRNL)) or (cut == 1 and any((f"{src}.endswith({c_})", True) in facts for c_ in CR)))
+        ctx.ob("R4", st, f"`{short(s, 60)}` is one of the documented shapings (CRLF/CR->LF at line end, decode, escape stripping)", ok, key=f"tee|undocumented-shaping|{txt[:50]}", where=loc(s))
+    app = [n for n in bcfg.nodes if n.kind == "stmt" and any(isinstance(c.func, ast.Attribute) and c.func.attr == "append" and unparse(c.func.value) in LINES for c in calls_in(n.ast))]
+    yl = [n for n in bcfg.nodes if n.kind == "stmt" and any(isinstance(x, ast.Yield) for x in ast.walk(n.ast))]
+    ok = len(app) == 1 and len(yl) == 1 and bcfg.dominated(yl[0], lambda m: m in app)
+    ctx.ob("R4", st, "each shaped line is appended to `lines` exactly once, before it is yielded", ok, key="tee|lines-append", where=loc(loop))
+    # ... and it is the line that is delivered, not an expression over it
+    given = [c.args[0] if len(c.args) == 1 and not c.keywords else None for n in app for c in calls_in(n.ast) if isinstance(c.func, ast.Attribute) and c.func.attr == "append" and unparse(c.func.value) in LINES]
+    given += [x.value for n in yl for x in ast.walk(n.ast) if isinstance(x, ast.Yield)]
+    bad = [g for g in given if not (isinstance(g, ast.Name) and g.id in LINE)]
+    ctx.ob("R4", st, "what is appended to `lines` and yielded is the shaped line itself (a local that holds the line under the documented shapings), not a further expression over it", bool(given) and not bad, key="tee|delivered-not-the-line", where=loc(loop), detail="; ".join(unparse(g) if g is not None else "?" for g in bad) or None)
 
 
 def _reaper_records(ctx, rule="R9"):
